@@ -827,8 +827,10 @@ def _bf_open(I, a):
         fs.trace.append(('open-failed', nm, mode)); _set_errno(I, ENOENT); return NULL
     if wr and (trunc or not (rd or app)):
         fs.files[nm] = []; fs.trace.append(('open-trunc', nm, mode))
-    else:
+    elif wr:
         fs.files.setdefault(nm, []); fs.trace.append(('open', nm, mode))
+    else:
+        fs.trace.append(('open-read', nm, mode))
     hid = fs.next_id; fs.next_id += 1
     fs.handles[hid] = {'name': nm, 'pos': len(fs.files[nm]) if app else 0, 'mode': mode}
     I.store(a[0], ('int', hid), 8)
@@ -837,7 +839,7 @@ def _bf_open(I, a):
 def _bf_close(I, a):
     fs = _fs(I); h = _bf_handle(I, a[0])
     if h is None: return NULL
-    fs.trace.append(('close', h['name'], None))
+    fs.trace.append(('close' if (h['mode'] & 16) else 'close-read', h['name'], None))
     hid = I.load(a[0], 8, 'ptr')[1]; fs.handles.pop(hid, None)
     I.store(a[0], NULL, 8)
     return a[0]
@@ -891,6 +893,18 @@ def _codecvt_cd(I, a): return None
 # harness access to the file-system model
 @ext('verif_fs_exists')
 def _v_fs_exists(I, a): return 1 if I.cstr(a[0]) in _fs(I).files else 0
+@ext('verif_fs_complete')
+def _v_fs_complete(I, a):
+    fs = _fs(I); nm = I.cstr(a[0])
+    if nm not in fs.files: return 0
+    cur = nm; complete = None
+    # walk the trace backwards following renames
+    for (op, n1, extra) in reversed(fs.trace):
+        if op == 'rename' and extra == cur: cur = n1; continue
+        if n1 != cur: continue
+        if op == 'close': return 1 if complete is None else complete
+        if op in ('write', 'open', 'open-trunc'): return 0
+    return 1
 @ext('verif_fs_size')
 def _v_fs_size(I, a): return len(_fs(I).files.get(I.cstr(a[0]), []))
 @ext('verif_fs_put')
@@ -940,7 +954,7 @@ def _v_fs_cc(I, a):
         elif op == 'remove': exists.discard(nm); state.pop(nm, None)
     crash_point('after the last operation')
     I.ext['fs_crash_report'] = {'points': points, 'bad': bad, 'detail': detail[:6], 'trace': [(o, n) for (o, n, e) in fs.trace][:40]}
-    I.notes.append('crash points examined: %d, without a complete state: %d' % (points, bad))
+    I.notes.append('crash points examined: %d, without a complete state: %d %s' % (points, bad, (detail[:4], [(o, n) for (o, n, e) in fs.trace][:30]) if bad else ''))
     return bad
 
 @ext('strtol', 'strtoll', 'strtoul', 'strtoull', '__isoc23_strtol', '__isoc23_strtoll')
